@@ -313,6 +313,21 @@ def check_ibd(ctx, tskit, spec, obj, case, label=True):
                     arr = sorted(zip(lst.left.tolist(), lst.right.tolist(), lst.node.tolist()))
                     ctx.check(arr == exp[p], W + ".arrays", lambda: f"pair {(u, v)}: {arr} expected {exp[p]}")
                     ctx.check(all(s.span == s.right - s.left for s in lst), W, "segment span")
+                    # history on one result object: ordinary in-place numpy work on the arrays it handed out
+                    # (or the refusal of it, if they are read-only) must not change what it reports afterwards
+                    for nm in ("left", "right", "node"):
+                        a_ = getattr(lst, nm)
+                        try:
+                            a_ += 1
+                            a_[::-1].sort()
+                        except ValueError:
+                            pass
+                    again = sorted(zip(res[(u, v)].left.tolist(), res[(u, v)].right.tolist(), res[(u, v)].node.tolist()))
+                    ctx.check(again == exp[p], W + ".arrays_after_scribble",
+                              lambda: f"pair {(u, v)}: {again} expected {exp[p]} after writing into the returned arrays")
+                    ctx.check(sorted((s.left, s.right, s.node) for s in res[(u, v)]) == exp[p], W + ".segments_after_scribble",
+                              f"pair {(u, v)}")
+                    ctx.close(res[(u, v)].total_span, math.fsum(r - l for l, r, _ in exp[p]), W + ".pair_total_span_after_scribble")
                 else:
                     for nm in ("left", "right", "node"):
                         try:
